@@ -17,6 +17,8 @@ Property clause → theorem
      what IS true of every history                                → `C13.collector_shortfall_bounded` (shortfall ≤ Σ over the
                                                                     second-generation closes of 2·lot resp. recorded − received)
      and therefore, for histories without those two closes        → `C13.collector_custody_ge_sum_netfees_partial`
+     the second-generation liquidation penalty (recorded under the collateral asset until fix d8b6c2e, finding D34) is an exact
+     inflow now → `C13.v2_penalty_exact`; what the unrepaired code did → `C13.v2_penalty_before_fix_counterexample`
 * "recorded net fees never go negative"                           → `C13.netfees_nonneg` (every history, including those closes)
 * "increase exactly by the fees, interest and penalties paid in, and decrease exactly by what is paid out as locker savings,
    auction lots and debt cover"                                   → `C13.netfees_delta_exact_partial` (every op except the two closes,
@@ -205,6 +207,22 @@ theorem collector_custody_ge_sum_netfees_counterexample_debt :
   intro op hop
   simp [witnessDebt] at hop
   rcases hop with e | e | e <;> subst e <;> simp [Op.extOk]
+
+/-- **The second-generation liquidation penalty is an ordinary exact inflow** (code as it is since fix d8b6c2e, finding D34): the
+penalty coins arrive in the debt asset and are recorded under the debt asset — every invariant is kept with the same shortfall and
+record and custody move together. It is therefore covered by `collector_custody_ge_sum_netfees_partial` / `netfees_delta_exact_partial`
+(it is not one of the two defective closes). -/
+theorem v2_penalty_exact {D : Nat → Int} (s s' : State) (app coll debt : Nat) (x : Int) (hL : LInv s) (hC : CInvD D s)
+    (h : step s (.v2Penalty app coll debt x) = some s') : LInv s' ∧ CInvD D s' ∧ Delta s s' :=
+  penalty_inv (app := app) (asset := debt) (x := x) hL hC h
+
+/-- what the UNREPAIRED code did (before d8b6c2e; a revert is reported by the correspondence run): fees 20 recorded and held in asset
+2; a penalty of 30 arrives in the debt asset 2 and is recorded under the collateral asset 1 ⇒ asset 1 has 30 recorded and 0 custody,
+30 coins of asset 2 are unrecorded. -/
+theorem v2_penalty_before_fix_counterexample :
+    ∃ s', v2PenaltyBeforeFix (runSkip (init [1, 2] [1] [((1, 2), {})]) [.feeVault 1 2 20]) 1 1 2 30 = some s' ∧
+      feeAsset 1 s'.fees = 30 ∧ bal s' .collector 1 = 0 ∧ feeAsset 2 s'.fees = 20 ∧ bal s' .collector 2 = 50 :=
+  ⟨_, rfl, by decide, by decide, by decide, by decide⟩
 
 /-- **Net fees move exactly with the coins**: on backed books (no second-generation close so far) every successful operation
 other than those two closes and a bare `DecreaseNetFeeCollectedData` changes, for every asset, the sum of the recorded net
